@@ -1414,14 +1414,17 @@ class Simplifier:
         """Simplifies expressions like IF, CASE if their condition is statically known."""
         if isinstance(expression, exp.Case):
             this = expression.this
-            for case in expression.args["ifs"]:
+            for case in list(expression.args["ifs"]):
                 cond = case.this
                 if this:
                     # Convert CASE x WHEN matching_value ... to CASE WHEN x = matching_value ...
                     cond = cond.replace(this.pop().eq(cond))
 
                 if always_true(cond):
-                    return case.args["true"]
+                    # Only the first remaining branch is certain to be the one that's taken
+                    if expression.args["ifs"][0] is case:
+                        return case.args["true"]
+                    break
 
                 if always_false(cond):
                     case.pop()
